@@ -2,7 +2,7 @@
 # usage: tools/try_mutant.sh <patch.diff> <ID> [<ID>...]   - apply a seeded change to /repo, run the quick
 # checks named, print one line per check, and ALWAYS restore /repo afterwards.
 set -u
-PATCH="$1"; shift
+PATCH="$(realpath "$1")"; shift
 cd /verif
 git -C /repo diff --quiet || { echo "/repo has local modifications; refusing"; exit 2; }
 git -C /repo apply "$PATCH" || { echo "patch does not apply"; exit 2; }
